@@ -678,3 +678,108 @@ if __name__ == "__main__":
         print(r["level"], r["kind"], r["assoc"], r["tokens"], action_paths(r["action"])[0][:6])
     print(sorted(g.lang(g.rules["reg8"]["expr"]))[:12], len(g.lang(g.rules["reg8"]["expr"])))
     print(g.prefix_conflicts(g.rules["op"]["expr"]))
+
+
+# ------------------------------------------------------------------------------------------------ matcher (PEG semantics on the AST)
+class MatchTrace:
+    """what a successful match went through: (rule, action text, {label: captured text}) for every sequence with an action"""
+    def __init__(self):
+        self.actions = []
+        self.unknown_conditions = []
+
+
+def peg_match(g, node, s, pos, tr, cond=None, rule=None, depth=0):
+    """PEG match of `node` on s at pos: end position or None.  Ordered choice, greedy repetition, no backtracking into a
+    finished choice - the semantics rust-peg implements.  `cond(rule, action, caps)` decides `{? }` actions (None = unknown)."""
+    if depth > 200:
+        return None
+    k = node[0]
+    if k == "lit":
+        return pos + len(node[1]) if s.startswith(node[1], pos) else None
+    if k == "class":
+        if pos >= len(s):
+            return None
+        c = s[pos]
+        hit = node[3] or any(lo <= c <= hi for lo, hi in node[1])
+        if node[2]:
+            hit = not hit
+        return pos + 1 if hit else None
+    if k == "call":
+        r = g.rules.get(node[1])
+        if r is None:
+            return None
+        return peg_match(g, r["expr"], s, pos, tr, cond, node[1], depth + 1)
+    if k == "choice":
+        for a in node[1]:
+            mark = len(tr.actions)
+            e = peg_match(g, a, s, pos, tr, cond, rule, depth + 1)
+            if e is not None:
+                return e
+            del tr.actions[mark:]
+        return None
+    if k == "seq":
+        cur = pos
+        caps = {}
+        mark = len(tr.actions)
+        for lab, e in node[1]:
+            end = peg_match(g, e, s, cur, tr, cond, rule, depth + 1)
+            if end is None:
+                del tr.actions[mark:]
+                return None
+            if lab:
+                caps[lab] = s[cur:end]
+            cur = end
+        if node[2] is not None:
+            if node[2]["cond"]:
+                v = cond(rule, node[2], caps) if cond else None
+                if v is None:
+                    tr.unknown_conditions.append((rule, node[2]["text"]))
+                elif not v:
+                    del tr.actions[mark:]
+                    return None
+            tr.actions.append((rule, node[2]["text"], caps))
+        return cur
+    if k in ("slice", "group"):
+        return peg_match(g, node[1], s, pos, tr, cond, rule, depth + 1)
+    if k == "opt":
+        e = peg_match(g, node[1], s, pos, tr, cond, rule, depth + 1)
+        return pos if e is None else e
+    if k == "not":
+        mark = len(tr.actions)
+        e = peg_match(g, node[1], s, pos, tr, cond, rule, depth + 1)
+        del tr.actions[mark:]
+        return pos if e is None else None
+    if k == "and":
+        mark = len(tr.actions)
+        e = peg_match(g, node[1], s, pos, tr, cond, rule, depth + 1)
+        del tr.actions[mark:]
+        return pos if e is not None else None
+    if k == "rep":
+        cur = pos
+        n = 0
+        while node[3] is None or n < node[3]:
+            start = cur
+            if n > 0 and node[4] is not None:
+                e = peg_match(g, node[4], s, cur, tr, cond, rule, depth + 1)
+                if e is None:
+                    break
+                cur2 = e
+            else:
+                cur2 = cur
+            e = peg_match(g, node[1], s, cur2, tr, cond, rule, depth + 1)
+            if e is None:
+                cur = start
+                break
+            if e == start:
+                break
+            cur = e
+            n += 1
+        return cur if n >= node[2] else None
+    return None          # prec / @ : not needed for the token-level rules this is used on
+
+
+def full_match(g, rule, s, cond=None):
+    """match the whole of s with a (pub) rule: MatchTrace or None"""
+    tr = MatchTrace()
+    e = peg_match(g, ("call", rule), s, 0, tr, cond)
+    return tr if e == len(s) else None
